@@ -84,6 +84,9 @@ def run(chk):
         "use of one recorder is covered by SharedRegister.tla + real-parallel rounds for registration of an equal key "
         "and one update per handle, with the snapshot taken at quiescence; concurrent snapshots of one histogram "
         "(with and without a concurrent writer) by SnapshotDrain.tla + the `drains` stage",
+        "concurrent describe_* calls: one call per thread per name, all released together (no real-time order between "
+        "them is assumed, so any sequential order is accepted); interleavings of the witness model are not replayable on the "
+        "real code (describe_metric has no verification points), detection relies on many fresh names per run",
         "a record() that overlaps a snapshot in a real-parallel run may be lost by the inherited bucket deviation CF05a; "
         "without a total order it cannot be told apart from another loss, so such rounds assert no duplicates, nothing "
         "invented and the deviation's bound (one value per writer per snapshot) only; losses are asserted exactly in the "
@@ -152,6 +155,24 @@ def run(chk):
         if r["invariant"] != inv:
             chk.tool_error("SnapshotDrain witness %s lost: expected %s violated, got %s" % (name, inv, r["invariant"]), r["out"][-2000:])
         chk.notes.setdefault("drain_witnesses", []).append("%s: %s violated at depth %d" % (name, inv, r["depth"]))
+
+    # ---- 1d. concurrent describe_* calls for one (kind, name) (DescribeRace.tla): as coded (one hold of the metadata
+    #          lock) the entry is linearizable in every state; the lookup / release / insert variant must be rejected
+    dr_inv = "Linearizable UnitKept DescGiven"
+    for sc in (1, 2, 3, 4):
+        name = "describe_scen%d" % sc
+        cfg = write_cfg(name, "Spec", dict(Scen=sc, TwoPhase="FALSE"), dr_inv)
+        r = vlib.tlc_mc(SPEC, "DescribeRace", cfg, workers=4, timeout=900, tag=name)
+        if not chk.expect_mc_ok(r, "DescribeRace/" + name, vacuity_exempt={"Lookup", "Insert"}):
+            return
+    chk.log("TLC DescribeRace: 4 scenarios as coded: linearizable in every state")
+    for sc in (1, 2, 3):
+        name = "describe_wit%d" % sc
+        cfg = write_cfg(name, "Spec", dict(Scen=sc, TwoPhase="TRUE"), dr_inv)
+        r = vlib.tlc_mc(SPEC, "DescribeRace", cfg, workers=2, timeout=600, tag=name, coverage=False)
+        if r["invariant"] != "Linearizable":
+            chk.tool_error("DescribeRace witness %s lost: lookup-then-insert no longer rejected (%s)" % (name, r["invariant"]), r["out"][-2000:])
+        chk.notes.setdefault("describe_witnesses", []).append("scenario %d two-phase: Linearizable violated at depth %d" % (sc, r["depth"]))
 
     # ---- 2. harness against the repository's working tree
     ok, out, wall = vlib.cargo_build("c19")
@@ -289,6 +310,21 @@ def run(chk):
                s6["missing_in_strict_rounds"], s6["missing_in_b_free"], s6["missing_in_cf05a_witness"],
                "listed" if listed else "not listed"))
 
+    # ---- 7. concurrent describe_* calls on one real recorder: per fresh name 4 threads released together describe it
+    #         once each (one / two / no unit carriers, same or different descriptions); quiescent snapshot; TLC (DescrOK)
+    #         decides per name that the (unit, description) shown is the outcome of some sequential order of the calls
+    tr7 = chk.path("describes.ndjson")
+    nnames = 30000 if thorough else 6000
+    rc, out, s7 = vlib.harness("c19", ["describes", "--names", nnames, "--threads", 4, "--out", tr7], env=env, timeout=1200)
+    if rc != 0 or not s7:
+        chk.tool_error("c19 describes failed", out)
+    n7 = vlib.validate_concat(chk, SPEC, "TraceDebugSnapshot", tcfg, tr7, "concurrent describes of one name",
+                              max_rounds=3, timeout=3000)
+    chk.cov["traces_validated_against_impl"] += n7
+    chk.notes["describes"] = s7
+    chk.log("concurrent describes: %d names x %d threads: harness tally %d names with a wrong unit"
+            % (s7["names"], s7["threads"], s7["names_with_wrong_unit"]))
+
     with open(tr) as f:
         head = [json.loads(next(f)) for _ in range(8)]
     chk.cov["samples"].append({"source": "recorded history (first events)", "events": head})
@@ -309,6 +345,15 @@ def replay(chk, path):
     lines = [l for l in open(path).read().splitlines() if l.strip()]
     first = json.loads(lines[0])
     progs = chk.path("replay_programs.ndjson")
+    if any('"ev":"descr"' in l for l in lines):
+        # the interleaving of a real-parallel describe race is not recorded (no hook points in describe_metric): run the stage again
+        tr7 = chk.path("replay_describes.ndjson")
+        rc, out, s7 = vlib.harness("c19", ["describes", "--names", 6000, "--threads", 4, "--out", tr7],
+                                   env={"VERIF_SEED": str(chk.seed)}, timeout=1200)
+        if rc != 0 or not s7:
+            chk.tool_error("c19 describes failed", out)
+        vlib.validate_concat(chk, SPEC, "TraceDebugSnapshot", "TraceDebugSnapshot.cfg", tr7, "replay: concurrent describes", max_rounds=3)
+        return
     if any('"ev":"drain"' in l for l in lines):
         tr6 = chk.path("replay_drains.ndjson")
         rc, out, s6 = vlib.harness("c19", ["drains", "--listed", 1 if "CF05a" in chk.listed else 0, "--out", tr6],
